@@ -73,6 +73,7 @@ def keystore_spec(draw):
     return {"key_id": draw(st.binary(min_size=16, max_size=16)).hex(), "data1": draw(st.binary(min_size=1, max_size=32)).hex(),
             "data2": draw(st.binary(min_size=1, max_size=32)).hex(), "extra": extra, "extra_at": draw(st.integers(0, 4)),
             "crlf": draw(st.booleans()), "comments": draw(st.booleans()), "sep": draw(st.sampled_from([" = ", "=", " =  "])),
+            "no_final_newline": draw(st.sampled_from([False, False, True])),
             "quote_style": draw(st.sampled_from(["eq-lower", "eq-lower", "eq-upper", "all-lower", "all-upper", "none"]))}
 
 
@@ -287,6 +288,27 @@ def check_cli(spec, out, data, payload, ks_text):
         with open(ep, "rb") as f:
             if f.read() != data:
                 out.fail("mutated|cli-input", "envelope file content changed")
+        # the tool on altered copies of the same envelope: must fail, and must not hand out the payload
+        if not out.failures:
+            _d, _p, _a, ranges = be.build(spec)
+            for region, pos in (("ct", max(0, ranges["ct"][1] - ranges["ct"][0] - 1)), ("tag", 0), ("ct", 0)):
+                if ranges[region][1] <= ranges[region][0]:
+                    continue
+                t_data, _p2, _a2, _r2 = be.build(spec, tamper=(region, pos, spec["xor"]))
+                with open(ep, "wb") as f:
+                    f.write(t_data)
+                if os.path.exists(op):
+                    os.remove(op)
+                rc, err = lib(tool.main)
+                failed = err is not None and not (isinstance(err.exc, SystemExit) and err.exc.code in (0, None))
+                failed = failed or (err is None and rc not in (0, None))
+                written = open(op, "rb").read() if os.path.exists(op) else b""
+                if not failed:
+                    out.fail(f"accepted|cli-tamper|{region}", f"the tool exited normally for an envelope whose {region} byte {pos} was altered; it wrote {len(written)} bytes")
+                    break
+                if payload and written == payload:
+                    out.fail(f"leaked|cli-tamper|{region}", "the tool failed but left the decrypted payload in the output file")
+                    break
     finally:
         sys.argv = old_argv
         shutil.rmtree(d, ignore_errors=True)
